@@ -361,7 +361,7 @@ func (e *dbExec) op(op string) string {
 		return fmt.Sprintf("n=%d %s", len(rs), strings.Join(rs, " "))
 	case "db.notifs":
 		start, _ := strconv.ParseInt(f[1], 10, 64)
-		ctx, cancel := context.WithTimeout(context.Background(), 200*time.Millisecond)
+		ctx, cancel := context.WithTimeout(context.Background(), 25*time.Millisecond)
 		defer cancel()
 		bs, err := e.db.ReadNextNotifications(ctx, start)
 		if err != nil {
